@@ -3,7 +3,7 @@ CONSTANTS Design = "copy"
           StopPolicy = "drain"
           Creation = "defaults"
           Modes = {"queue"}
-          NRec = 4
+          NRec = 3
           Sizes = {1, 60, 200}
           Times = {1, 7}
           MaxBufs = {0, 100}
@@ -12,8 +12,8 @@ CONSTANTS Design = "copy"
           QCaps = {1, 2}
           Keeps = {TRUE}
           MaxDirect = 2
-          Reconfig = 1
-          EarlyFlush = TRUE
+          Reconfig = 0
+          EarlyFlush = FALSE
           WithDefaults = TRUE
 INVARIANTS ExactlyOnceInOrder CountMatches Decodable ZipIff DefaultsInForce HandedOverIsImmutable
 PROPERTIES FlushWhenDue
